@@ -37,6 +37,21 @@ fn apply_prelude<'a, V, P>(b: &mut PasetoBuilder<'a, V, P>, op: &'a J) -> Result
             "jti" => { b.set_claim(TokenIdentifierClaim::from(s(2))); }
             k => { b.set_claim(CustomClaim::try_from((k, o.get(2).cloned().unwrap_or(J::Null))).map_err(|e| e.to_string())?); }
         },
+        "set_typed" => {
+            // claim values of native Rust types (not serde_json::Value): [ "set_typed", key, kind, value ]
+            let k = s(1).to_string(); let v = o.get(3).cloned().unwrap_or(J::Null);
+            match s(2) {
+                "f32" => { b.set_claim(CustomClaim::try_from((k, v.as_f64().unwrap_or(0.0) as f32)).map_err(|e| e.to_string())?); }
+                "f64" => { b.set_claim(CustomClaim::try_from((k, v.as_f64().unwrap_or(0.0))).map_err(|e| e.to_string())?); }
+                "i64" => { b.set_claim(CustomClaim::try_from((k, v.as_i64().unwrap_or(0))).map_err(|e| e.to_string())?); }
+                "u8" => { b.set_claim(CustomClaim::try_from((k, v.as_u64().unwrap_or(0) as u8)).map_err(|e| e.to_string())?); }
+                "bool" => { b.set_claim(CustomClaim::try_from((k, v.as_bool().unwrap_or(false))).map_err(|e| e.to_string())?); }
+                "vec_f32" => { let xs: Vec<f32> = v.as_array().cloned().unwrap_or_default().iter().map(|x| x.as_f64().unwrap_or(0.0) as f32).collect(); b.set_claim(CustomClaim::try_from((k, xs)).map_err(|e| e.to_string())?); }
+                "opt_f32" => { let x: Option<f32> = v.as_f64().map(|x| x as f32); b.set_claim(CustomClaim::try_from((k, x)).map_err(|e| e.to_string())?); }
+                "string" => { b.set_claim(CustomClaim::try_from((k, v.as_str().unwrap_or("").to_string())).map_err(|e| e.to_string())?); }
+                other => return Err(format!("unknown typed kind {}", other)),
+            }
+        }
         "ack" => { b.set_no_expiration_danger_acknowledged(); }
         "footer" => { b.set_footer(Footer::from(s(1))); }
         _ => return Err(format!("unknown builder op {}", name)),
@@ -59,6 +74,21 @@ fn apply_generic<'a, V, P>(b: &mut GenericBuilder<'a, 'a, V, P>, op: &'a J) -> R
             "jti" => { b.set_claim(TokenIdentifierClaim::from(s(2))); }
             k => { b.set_claim(CustomClaim::try_from((k, o.get(2).cloned().unwrap_or(J::Null))).map_err(|e| e.to_string())?); }
         },
+        "set_typed" => {
+            // claim values of native Rust types (not serde_json::Value): [ "set_typed", key, kind, value ]
+            let k = s(1).to_string(); let v = o.get(3).cloned().unwrap_or(J::Null);
+            match s(2) {
+                "f32" => { b.set_claim(CustomClaim::try_from((k, v.as_f64().unwrap_or(0.0) as f32)).map_err(|e| e.to_string())?); }
+                "f64" => { b.set_claim(CustomClaim::try_from((k, v.as_f64().unwrap_or(0.0))).map_err(|e| e.to_string())?); }
+                "i64" => { b.set_claim(CustomClaim::try_from((k, v.as_i64().unwrap_or(0))).map_err(|e| e.to_string())?); }
+                "u8" => { b.set_claim(CustomClaim::try_from((k, v.as_u64().unwrap_or(0) as u8)).map_err(|e| e.to_string())?); }
+                "bool" => { b.set_claim(CustomClaim::try_from((k, v.as_bool().unwrap_or(false))).map_err(|e| e.to_string())?); }
+                "vec_f32" => { let xs: Vec<f32> = v.as_array().cloned().unwrap_or_default().iter().map(|x| x.as_f64().unwrap_or(0.0) as f32).collect(); b.set_claim(CustomClaim::try_from((k, xs)).map_err(|e| e.to_string())?); }
+                "opt_f32" => { let x: Option<f32> = v.as_f64().map(|x| x as f32); b.set_claim(CustomClaim::try_from((k, x)).map_err(|e| e.to_string())?); }
+                "string" => { b.set_claim(CustomClaim::try_from((k, v.as_str().unwrap_or("").to_string())).map_err(|e| e.to_string())?); }
+                other => return Err(format!("unknown typed kind {}", other)),
+            }
+        }
         "remove" => { b.remove_claim(s(1)); }
         "footer" => { b.set_footer(Footer::from(s(1))); }
         _ => return Err(format!("unknown builder op {}", name)),
@@ -249,6 +279,15 @@ macro_rules! parse_impl {
             if !ext.is_empty() { p.extend_validation_claims(ext); }
             for (ti, t) in $toks.iter().enumerate() {
                 if let Some(list) = $st["mid_checks"][ti.to_string().as_str()].as_array() { let list: Vec<J> = list.clone(); apply_checks!(p, &list); }
+                if let Some(me) = $st["mid_extend"][ti.to_string().as_str()].as_object() {
+                    // re-configuration through the bulk setters between two parses
+                    let mut cm: HashMap<String, Box<dyn erased_serde::Serialize>> = HashMap::new();
+                    for c in me.get("checks").and_then(|x| x.as_array()).cloned().unwrap_or_default() { let k = c["key"].as_str().unwrap_or("").to_string(); let mut o = serde_json::Map::new(); o.insert(k.clone(), c["value"].clone()); cm.insert(k, Box::new(J::Object(o))); /* a claim serialises as the one-entry map {key: value} */ }
+                    if !cm.is_empty() { p.extend_check_claims(cm); }
+                    let mut vm: ValidatorMap = HashMap::new();
+                    for v in me.get("validators").and_then(|x| x.as_array()).cloned().unwrap_or_default() { vm.insert(v["key"].as_str().unwrap_or("").to_string(), Box::new(validator_for(v["kind"].as_str().unwrap_or("accept")))); }
+                    if !vm.is_empty() { p.extend_validation_claims(vm); }
+                }
                 if let Some(ms) = $st["sleep_ms_before"][ti.to_string().as_str()].as_u64() { std::thread::sleep(std::time::Duration::from_millis(ms)); }
                 CALLS.with(|c| c.borrow_mut().clear());
                 let r = guarded(|| p.parse(t, if alt_for.contains(&ti) { &key2 } else { &key }).map(|v| v.to_string()).map_err(|e| format!("{:?}", e)));
